@@ -19,10 +19,10 @@ CONSTANTS MaxObs
 
 L0 == [obs |-> 0, rcache |-> 0, bwRecv |-> 0, bwSend |-> 0]
 Kinds == {"plainOK", "plainSepCon", "plainBadToken", "plainCtxWrite", "plainCancel", "plainExpire", "plainRst", "dupToken",
-          "bwUpOK", "bwUpCancel", "bwUpRefused", "bwDownOK", "bwDownAbandon",
+          "bwUpOK", "bwUpCancel", "bwUpRefused", "bwDownOK", "bwDownAbandon", "bwDownStall",
           "obsOK", "obsCancel", "obsCancelRefused", "obsCancelGiveUp", "obsFail", "obsSilentCancel", "obsAckedCancel", "obsNotifyEtag", "obsNoObs205", "obsNoObs203",
           "pingOK", "pingCancel", "pingAsyncOK", "pingForget", "pingWriteFail", "oneWay",
-          "srvReq", "srvReqNon", "srvReqNoResp", "srvReqHijack", "srvBwUpAbandon", "srvBwDownAbandon", "srvBwDownRetry", "srvBwDownBadCont",
+          "srvReq", "srvReqDup", "srvReqNon", "srvReqNoResp", "srvReqHijack", "srvBwUpAbandon", "srvBwDownAbandon", "srvBwDownRetry", "srvBwDownBadCont",
           "tickEarly", "tickBw", "tickLate"}
 Enabled(s, k) == CASE k = "obsOK" -> s.obs < MaxObs
                    [] k \in {"obsCancel", "obsCancelRefused", "obsCancelGiveUp", "obsNotifyEtag"} -> s.obs > 0
@@ -34,7 +34,7 @@ Step(s, k) ==
     [] k \in {"obsCancel", "obsCancelRefused", "obsCancelGiveUp"} -> [s EXCEPT !.obs = s.obs - 1]
     [] k = "bwDownAbandon" -> [s EXCEPT !.bwRecv = s.bwRecv + 1]
     \* (a confirmable separate response is acknowledged, and the acknowledgement is remembered for its message ID)
-    [] k \in {"srvReq", "srvReqNon", "srvReqNoResp", "srvReqHijack", "plainSepCon"} -> [s EXCEPT !.rcache = s.rcache + 1]
+    [] k \in {"srvReq", "srvReqDup", "srvReqNon", "srvReqNoResp", "srvReqHijack", "plainSepCon"} -> [s EXCEPT !.rcache = s.rcache + 1]
     [] k = "srvBwUpAbandon" -> [s EXCEPT !.bwRecv = s.bwRecv + 1, !.rcache = s.rcache + 1]
     [] k = "srvBwDownAbandon" -> [s EXCEPT !.bwSend = s.bwSend + 1, !.rcache = s.rcache + 1]
     \* (the same request twice with one token, the transfer abandoned: one held response, two remembered replies)
